@@ -203,7 +203,34 @@ def check_case(ctx, case, rng):
             overflow(ctx, case, cfgd, cfg, T, v, rng)
 
 
+def witnesses(ctx):
+    """Pinned witnesses of the open findings K1 and K7, judged by the same oracle as everything else."""
+    import random
+
+    from ..gen import F, L_EOF, N_array, N_int, N_struct
+
+    rng = random.Random(0)
+    u = N_struct([F(None, N_struct([F("a", N_int("uint32")), F("b", N_int("uint32"))])), F("c", N_int("uint8"))],
+                 union=True)
+    k1 = gen.simple_case([F("u", u)])
+    k1["named"] = {}
+    cfgd = {"endian": "<", "align": False, "compiled": False, "ptr": "uint64"}
+    cfg = engine.mcfg(k1, "<", False)
+    cs, _ = engine.load_cfg(ctx, k1, cfgd)
+    inp = bytes([1, 2, 3, 4, 5, 6, 7, 8])
+    roundtrip(ctx, k1, cfgd, cfg, cs.T, cs.T(inp), "parsed", inp=inp)
+    k7 = gen.simple_case([F("a", N_int("uint32")), F("b", N_array(N_int("uint8"), L_EOF))])
+    k7["named"] = {}
+    cfgd = {"endian": "<", "align": True, "compiled": False, "ptr": "uint64"}
+    cfg = engine.mcfg(k7, "<", True)
+    cs, _ = engine.load_cfg(ctx, k7, cfgd)
+    roundtrip(ctx, k7, cfgd, cfg, cs.T, cs.T(a=1, b=[1]), "constructed")
+    ctx.cell("pinned-witnesses")
+
+
 def run(ctx):
+    if ctx.shard == 0:
+        witnesses(ctx)
     for i in range(N_CASES[ctx.tier]):
         if ctx.out_of_time():
             break
